@@ -12,7 +12,7 @@ def isa_for(params, base_isa_fn):
 
 
 def run_program(acc, params, isa, files, main='main.asm', incdirs=(), start=0, end=None, fill=0,
-                clause=None, nontrivial=None, defect_table=(), tag=None, defines=(), sample=True):
+                clause=None, nontrivial=None, defect_table=(), tag=None, defines=(), sample=True, priority=0):
     """Assembles `files` with the real code and with the reference; judges; returns (ref, out, msg)."""
     ref = R.assemble(params, files, main, incdirs)
     case = Case(isa, R.render_files(files), main=main, incdirs=incdirs, start=start, end=end, fill=fill,
@@ -31,7 +31,7 @@ def run_program(acc, params, isa, files, main='main.asm', incdirs=(), start=0, e
             if alt.status != 'DC' and judge_expect(expect_spec(alt, start, end, fill), [out]) is None:
                 finding = fid
                 break
-        acc.violation([case], spec, msg, [out], finding=finding)
+        acc.violation([case], spec, msg, [out], finding=finding, priority=priority)
     cl = clause(ref) if callable(clause) else clause
     if cl is None:
         cl = 'accepted' if ref.status == 'OK' else 'rejected'
